@@ -173,6 +173,13 @@ def Prim.maybeAnycastDom : Val → Bool
   | .cons a .nil => Prim.anycastDom a
   | _ => false
 
+/-- wallet v1..v4 payload: (^msg, mode) pairs with present message cells and byte-sized modes -/
+def Prim.payloadDom : Val → Bool
+  | .nil => true
+  | .cons (.cons (.cons (.cell c) .nil) (.cons (.int mode) .nil)) rest =>
+    cellOk c && 0 ≤ mode && mode < 256 && Prim.payloadDom rest
+  | _ => false
+
 def Prim.inDom (p : Prim) (v : Val) : Bool :=
   match p, v with
   | .unary, .int n => 0 ≤ n
@@ -202,6 +209,7 @@ def Prim.inDom (p : Prim) (v : Val) : Bool :=
   | .computeSkipReason, .bytes bs =>
     bs == Prim.s_cskip_no_state || bs == Prim.s_cskip_bad_state
       || bs == Prim.s_cskip_no_gas || bs == Prim.s_cskip_suspended
+  | .payloadV1toV4, v => Prim.valLen v ≤ 4 && Prim.payloadDom v
   | .vmCellSlice, .cons (.cons (.cell c) .nil) (.cons (.int a) (.cons (.int b) (.cons (.int x) (.cons (.int y) .nil)))) =>
     cellOk c && 0 ≤ a && a ≤ b && 0 ≤ x && x ≤ y
   | _, _ => false
